@@ -214,7 +214,10 @@ def C12(rep, prog, tier):
                        "Invariance under reordering, renaming and equivalent rewriting is semantic and not decided")
     ex = Explorer(prog, rep)
     table = wrappers.dispatch(rep, ex, report=False)
-    keep = {"KEY.no-reserved", "KEY.no-positional", "NONINTERF", "W.query-slot", "LEX.query-slot"}
+    keep = {"KEY.no-reserved", "KEY.no-positional", "NONINTERF", "W.query-slot", "LEX.query-slot",
+            # necessary for invariance under reordering / equivalent rewriting: an early exit that looks at all conditionals,
+            # constants evaluated instead of named
+            "C.selffulfilling", "C.relations", "CNF.constants"}
     rep.only = keep
     try:
         cls = _class_of(table, ("p-entailment", None))
@@ -239,6 +242,7 @@ def C12(rep, prog, tier):
             cinf.query_names(rep, ex, cls)
             cinf.answer(rep, ex, cls)
             wrappers.noninterference(rep, ex, f"inference/c_inference.py:{cls.rsplit('.', 1)[1]}._inference", ex.cache.get((f"{cls}._inference", "cinf"), []))
+        cnf.constants_handling(rep, ex)
     finally:
         rep.only = None
 
@@ -330,7 +334,7 @@ def C14(rep, prog, tier):
         if cls:
             enum.z3mcs(rep, ex, cls)
     wrappers.timeout_flow(rep, ex)
-    wrappers.rows(rep, ex, which=("single", "worker", "multi"), rules=("TIMEOUT.row",))
+    wrappers.rows(rep, ex, which=("single", "worker", "multi"), rules=("TIMEOUT.row", "TIMEOUT.per-query"))
     wrappers.refuse(rep, ex, rules=("TIMEOUT.row", "TIMEOUT.flow", "PREPROC.once"))
     wrappers.refuse_manager(rep, ex, rules=("TIMEOUT.row",))
     wrappers.preprocessing_timeout_rows(rep, ex)
